@@ -4,6 +4,8 @@
 import GEVerif.Model.Sexp
 import GEVerif.Model.Synth
 import GEVerif.Drive.Val
+import GEVerif.Drive.C06
+import GEVerif.Drive.C07
 
 namespace GEVerif.Drive.C01
 open GEVerif Sexp GEVerif.Drive
@@ -17,6 +19,12 @@ def handle : List Sexp → Option Sexp
   | [atom "prop_wt", spec, v] => do
       let g := analyse (← parseSpec spec)
       pure (ofBool (wt g [] (.cls g.spec.start) (← parseVal v)))
+  -- mapping and variation operators: same model entry points as C07 / C06
+  | atom "map_ge" :: rest => C07.handle (atom "map_ge" :: rest)
+  | atom "map_sge" :: rest => C07.handle (atom "map_sge" :: rest)
+  | atom "map_dsge" :: rest => C07.handle (atom "map_dsge" :: rest)
+  | atom "tree_mutate" :: rest => C06.handle (atom "tree_mutate" :: rest)
+  | atom "tree_crossover" :: rest => C06.handle (atom "tree_crossover" :: rest)
   | _ => none
 
 end GEVerif.Drive.C01
